@@ -261,9 +261,11 @@ def part_statics(ctx, corr, exes):
 
 
 # =========================================================================================================== tsan
-def gen_run(rnd, lay, ip, T, mode, scen, K, reps, big=False):
+def gen_run(rnd, lay, ip, T, mode, scen, K, reps, big=False, force_sz=None):
     N = 2 if lay == "hilbert" else rnd.choice([2, 3])
-    if ip == "linear" and scen == "writers":
+    if force_sz:
+        sz = list(force_sz); N = len(sz)
+    elif ip == "linear" and scen == "writers":
         if lay != "strided" and T > 4:
             N = 2
         sz = [2 + 2 * T] + [rnd.choice([2, 3, 4] if big else [2, 3]) for _ in range(N - 1)]
@@ -533,6 +535,11 @@ def tsan_runs(ctx):
                             runs.append(gen_run(rnd, lay, ip, T, mode, scen, K, reps, big=not ctx.quick))
                 if T in (2, 8) or not ctx.quick:
                     runs.append(gen_run(rnd, lay, ip, T, "two", "readers", K, reps + 2, big=not ctx.quick))
+    # one wide field per storage order (an extent beyond 256 and beyond 2^8 cells per row): readers all over it through one shared
+    # view and through views of their own — state cached per tile / per row in a view shows as a race or as another cell's value
+    for lay in LAYS:
+        for mode in ("shared", "own"):
+            runs.append(gen_run(rnd, lay, "linear", 4, mode, "readers", 150 if ctx.quick else 400, reps, force_sz=[300, 261]))
     return runs
 
 
